@@ -120,7 +120,9 @@ class Check:
                 # vacuity guard: one refuted instance is enough; short budget per path,
                 # shortest path conditions first
                 refuted = False
-                for ob in sorted(obs, key=lambda o: len(o.pc))[:12]:
+                order = sorted(obs, key=lambda o: len(o.pc))
+                order = order[-8:][::-1] + order[:8]
+                for ob in order:
                     # quantified facts are left out: they only make the refutation harder to
                     # find (precondition vacuity has its own check in verify())
                     ob.pc = [t for t in ob.pc if not E.has_quantifier(t)]
